@@ -30,7 +30,7 @@ from __future__ import annotations
 from ..commands import CommandRun
 from ..model import AnalysisError
 from ..oracle import ENUM_CODE, quantity_of, STATE_SLOT, MOTION_OR_OFFSET
-from ..traceutil import statements, words, same_value, chain, decisions_text, resolve, norm_code, out_of_scope_exception
+from ..traceutil import statements, words, same_value, chain, decisions_text, resolve, norm_code, out_of_scope_exception, out_of_scope_path
 from ..values import *
 
 MUST_EMIT = {"SpinMode", "PowerMode", "CoolantMode", "ToolSwapMode", "DistanceMode", "ExtrusionMode", "FeedMode", "LengthUnits", "Plane"}
@@ -65,7 +65,7 @@ def analyse(W, name, f, ctx, desc, path):
             items.append(("viol", "R5", f"{name}:no-table-entry", f"{entry}: the instruction table has no entry for the member looked up "
                           f"(KeyError in {path.raise_site[0]})", [f"via {chain(path.raise_stack)}", f"path decisions: {decisions_text(path)}"]))
             return items
-        if out_of_scope_exception(W.P, path.value.cls):
+        if out_of_scope_path(W.P, path):
             return items
         return items + rejected(W, name, entry, path)
     st_init = _state(W, W.I.static_heap)
